@@ -431,6 +431,27 @@ def index_call(lines, key):
     return hits[0] if hits else None
 
 
+def straddle_case(i):
+    """in-memory engine: a batch that rewrites a key is BEGUN before the deadline of the key's old value and COMMITTED after
+    it (the engine holds its mutex from begin to commit, so the old value's timer fires in between and waits): the new
+    value - written without ttl, or with a long one - must survive. Whatever the machine's timing, the answer is the new
+    value (a batch begun late simply finds the key expired), so the case cannot raise a false alarm."""
+    eng = ["memkv", "metrics-memkv"][i % 2]
+    ttl2 = ["", ":3600"][(i // 2) % 2]
+    k = hx(b"k%d" % i)
+    lines = ["cfg engine=%s" % eng, "batch put:%s:7631:1" % k, "sleep 700", "bbegin b1 put:%s:7632%s" % (k, ttl2), "sleep 550",
+             "bcommit b1", "sleep 150", "get %s" % k]
+    return core.Case("engine", lines, {"engine": eng, "straddle": True})
+
+
+def straddle_oracle(case):
+    out = case.impl[-1] if case.impl else ""
+    if out.split()[:2] != ["get", "7632"]:
+        return ("a value written by a batch that was begun before and committed after the deadline of the value it replaces is "
+                "gone: %s - removed by the expiry of the value it replaced" % out, "young-value-removed")
+    return None
+
+
 def hostile_sibling_case(i):
     """an expired Event e and a YOUNG Event whose name is e + '$' + 8..9 more bytes: its records sort between the versions of
     e. The expiry batch of e must take only e's own versions - the young sibling stays whole and readable."""
@@ -677,6 +698,7 @@ def check(rep, tier, seed):
     cases += [renew_case(seed, i, ["update", "recreate"][i % 2]) for i in range(2 if tier == "quick" else 24)]
     cases += [badger_young_case(i) for i in range(2 if tier == "quick" else 12)]
     cases += [hostile_sibling_case(i) for i in range(2 if tier == "quick" else 9)]
+    cases += [straddle_case(i) for i in range(2 if tier == "quick" else 8)]
     # tikv: an Event renewed after the mark, compacted below its newest change; and the failed compare-and-delete of an
     # expired revision record (plain / other error / failed-condition error)
     cases += [renewed_event_case(seed, i, ["", "c", "f"][i % 3]) for i in range(3 if tier == "quick" else 42)]
@@ -688,7 +710,8 @@ def check(rep, tier, seed):
                     break
                 c.run()
             rep.cov["renew_cases_conclusive"] = rep.cov.get("renew_cases_conclusive", 0) + (1 if renew_conclusive(c) else 0)
-    pick = lambda c: (interrupted_oracle(c) if c.meta.get("interrupted") else
+    pick = lambda c: (straddle_oracle(c) if c.meta.get("straddle") else hostile_sibling_oracle(c) if c.meta.get("sibling") else
+                      interrupted_oracle(c) if c.meta.get("interrupted") else
                       badger_young_oracle(c) if c.meta.get("byoung") else renewed_oracle(c) if c.meta.get("renewed")
                       else engine_ttl_oracle(c) if c.meta.get("engine_ttl") else concurrent_oracle(c) if c.meta.get("concurrent")
                       else renew_oracle(c) if c.meta.get("renew") else native_oracle(c) if c.meta.get("native") else oracle(c))
